@@ -94,6 +94,42 @@ def run(ctx):
         else:
             R.violation('c', 'R1', 'MKProof::verify: the boolean verdict of the MMR verifier gates Ok', 'mkproof:verdict',
                         'the bool returned by MerkleProof::verify does not decide the result', vf.loc())
+        # F18: the MMR verifier checks only the FIRST leaf given for a position, while contains() / leaves() answer from all of them: success
+        # must require that no position is listed twice (each position inserted into a set: a `false` insert cannot reach success - in the
+        # body, through a flag, or as the verdict of an `all(..)` closure over the leaves - or the set size is compared with the count)
+        from engine import track_result as _tr, success_reachable as _sr, closure_args as _ca
+        INS = ('std::collections::hash::set::HashSet::insert', 'std::collections::btree::set::BTreeSet::insert', 'std::collections::btree::map::BTreeMap::insert',
+               'std::collections::hash::map::HashMap::insert')
+        uniq = False
+        for c in body.calls():
+            # (i)/(ii) insert in the body: its `false` outcome cannot reach success
+            if any(n in INS for n in c.names()) and len(c.args) > 1 and has(fn_origins(vf, c.args[1], True), 'pty:MKProof.inner_leaves'):
+                t_ = _tr(body, c.dest[0], +1, 'bool')
+                st_ = [b_ for _, b_ in t_.fail_edges]
+                if st_ and not _sr(body, set(), 'ok', starts=st_):
+                    uniq = True
+            # (iii) `leaves.iter().all(|(p, _)| set.insert(*p))`: the closure's verdict is the insert's, and a false verdict fails
+            if any(n.endswith(('Iterator>::all', 'Iterator::all')) for n in c.names()) and has(fn_origins(vf, c.args[0], True), 'pty:MKProof.inner_leaves'):
+                for cn in _ca(body, c):
+                    for cl in vf.family():
+                        if getattr(cl, '_orig', cl).name != cn:
+                            continue
+                        for cc in cl.body.calls():
+                            if any(n in INS for n in cc.names()) and _tr(cl.body, cc.dest[0], +1, 'bool').returned:
+                                t_ = _tr(body, c.dest[0], +1, 'bool')
+                                st_ = [b_ for _, b_ in t_.fail_edges]
+                                if st_ and not _sr(body, set(), 'ok', starts=st_):
+                                    uniq = True
+        if not uniq:
+            # (iv) size of a set of the positions compared with the number of leaves
+            uniq = ctx.quiet_gate(vf, lambda g: g.op in ('Eq', 'Ne') and (has(g.a_orig | g.b_orig, 'call:*Set::len') or has(g.a_orig | g.b_orig, 'call:*Map::len'))
+                                  and has(g.a_orig | g.b_orig, 'pty:MKProof.inner_leaves'), {'eq'})[0]
+        inst_u = 'MKProof::verify accepts only proofs that list every leaf position once (the MMR verifier ignores all but the first leaf of a position)'
+        if uniq:
+            R.ok('c', 'R6', inst_u, '', vf.loc())
+        else:
+            R.violation('c', 'R6', inst_u, 'mkproof:unique-positions', 'no uniqueness test on the positions of inner_leaves gates success: a position listed twice lets contains() / leaves() '
+                        'vouch for a leaf that was never checked against the root', vf.loc())
         ctx.arg_origin('c', MK + '::verify', mmr, 1, require=['pty:MKProof.inner_root'], desc='(root) <- self.inner_root')
         ctx.arg_origin('c', MK + '::verify', mmr, 2, require=['pty:MKProof.inner_leaves'], desc='(leaves) <- self.inner_leaves')
         ctx.arg_origin('c', MK + '::verify', mmr, 0, require=['pty:MKProof.inner_proof_items', 'pty:MKProof.inner_proof_size'],
